@@ -79,6 +79,61 @@ def write_cases(cases, path, rng=None, variants=False):
             fo.write(json.dumps(d, separators=(",", ":")) + "\n")
 
 
+def validate_rule_steps(ck, cases, rtrace, tmp, rng):
+    """code -> spec: every recorded call of Pass::findNDoRule (rule that fired, cursor position) and every finished pass
+    of every case is validated by TLC against StepRun / NextPass of GdlRef (spec/GdlRefTrace.tla)."""
+    files = {0: open(os.path.join(tmp, "rt0.ndjson"), "w"), 1: open(os.path.join(tmp, "rt1.ndjson"), "w")}
+    nev = {0: 0, 1: 0}
+    cur = None
+    index = {0: [], 1: []}          # line number -> case number, for diagnostics
+    for line in open(rtrace):
+        if line.startswith('{"e":"Case"'):
+            k = json.loads(line)["c"] - 1
+            c = cases[k]
+            cur = c["rtl"]
+            line = json.dumps({"e": "Case", "prog": c["prog"], "text": c["text"], "feats": c.get("feats", [])}, separators=(",", ":")) + "\n"
+            index[cur].append((nev[cur], k))
+        if cur is None:
+            continue
+        files[cur].write(line)
+        nev[cur] += 1
+    for f in files.values():
+        f.close()
+    total = 0
+    for rtl in (0, 1):
+        if nev[rtl] == 0:
+            continue
+        path = os.path.join(tmp, "rt%d.ndjson" % rtl)
+        rv = vlib.tlc("GdlRefTraceMC.tla", "GdlRefTrace_rtl%d.cfg" % rtl, workers=1, env={"TRACE": path}, timeout=6000, coverage=False, heap="24g")
+        if rv.violation:
+            at = max(rv.states - 1, 0)
+            k = max([kk for (ln, kk) in index[rtl] if ln <= at] or [0])
+            lines = open(path).read().splitlines()
+            c = cases[k]
+            ck.violation("rule loop step not allowed by the reference semantics: case c%d (rtl=%d) event %s" % (k, rtl, lines[min(at, len(lines) - 1)][:120]),
+                         {"why": "trace rejected by GdlRefTrace (" + str(rv.violation) + ")", "prog": c["prog"], "text": c["text"], "feats": c.get("feats", []), "rtl": rtl,
+                          "events": lines[max(0, at - 12):at + 1]})
+            return
+        ck.add_tlc("GdlRefTrace/rtl=%d (%d rule-loop events)" % (rtl, nev[rtl]), rv)
+        total += nev[rtl]
+    ck.extra.setdefault("impl", {})["rule_loop_events_validated"] = total
+    # binding: a Step event that names another rule must be rejected
+    path = os.path.join(tmp, "rt0.ndjson")
+    lines = open(path).read().splitlines()
+    cand = [i for i, l in enumerate(lines) if l.startswith('{"e":"Step"') and '"rule":0' not in l]
+    if cand:
+        i = rng.choice(cand)
+        o = json.loads(lines[i])
+        o["rule"] = o["rule"] + 1
+        start = max(j for j in range(i + 1) if lines[j].startswith('{"e":"Case"'))
+        bad = os.path.join(tmp, "rt_corrupt.ndjson")
+        open(bad, "w").write("\n".join(lines[start:i] + [json.dumps(o, separators=(",", ":"))]) + "\n")
+        rb = vlib.tlc("GdlRefTraceMC.tla", "GdlRefTrace_rtl0.cfg", workers=1, env={"TRACE": bad}, timeout=3000, coverage=False)
+        if not rb.violation:
+            raise vlib.Broken("binding lost: a recorded rule-loop step naming another rule was accepted")
+        ck.extra["binding_demo"] = "a Step event renamed to the next rule is rejected by GdlRefTrace"
+
+
 def run(ck, tier, seed):
     tmp = vlib.tmpdir("C06")
     cases = gen_cases(ck, tier, seed, tmp)
@@ -91,12 +146,15 @@ def run(ck, tier, seed):
     cf = os.path.join(tmp, "cases.ndjson")
     write_cases(cases, cf, random.Random(seed), variants=True)
     exe = vlib.build_harness("san")
-    h = vlib.run_harness(exe, ["gdl", cf], timeout=6000)
+    rtrace = os.path.join(tmp, "rules.ndjson")
+    h = vlib.run_harness(exe, ["gdl", cf, "trace", rtrace], timeout=6000)
     for p in ("C06", "C02", "C03", "C04", "C05"):
         vlib.absorb(ck, h, pid=p)
     if h.summary:
         ck.traces += h.summary["extra"]["compared"]
         ck.extra["impl"] = {"gdl": h.summary["extra"]}
+    if h.summary and not h.fault:
+        validate_rule_steps(ck, cases, rtrace, tmp, random.Random(seed))
     ck.assumptions += ["GDL-lite family of spec/GdlRef.tla (uniform pre-context 0..1, rules of length <= 3, progress-only cursor returns); "
                        "fontgen/gdl.py + gfont.py compile each program to Silf v2/v3/v4 (linear and lookup classes), Glat, Gloc, cmap",
                        "intra-rule visibility of attribute assignments to later references is left outside the family (not fixed by the documented semantics)"]
